@@ -265,6 +265,43 @@ func TestC01Ex(t *testing.T) {
 			}
 		}
 	}
+	// token-limit family: incompressible bytes (one token each) up to just below the 32767-token
+	// block limit, then a long run / long match that starts within the last tokens of the block
+	tl := 0
+	step := 7
+	if thorough() {
+		step = 1
+	}
+	for d := -270; d <= 6; d++ {
+		if d < -8 && (d+270)%step != 0 {
+			continue
+		}
+		for _, ctor := range []string{"new", "4k"} {
+			for _, lvl := range []int{1, 2} {
+				for kind := 0; kind < 2; kind++ {
+					c := C01Case{Set: WSetting{Ctor: ctor, Level: lvl}}
+					c.Data = gen.Recipe{Segs: []gen.Seg{{Kind: "rand", N: 32767 + d, A: 256, Seed: uint64(7 + kind)}}}
+					if kind == 0 {
+						c.Data.Segs = append(c.Data.Segs, gen.Seg{Kind: "run", N: 1300, A: 0x41})
+					} else {
+						c.Data.Segs = append(c.Data.Segs, gen.Seg{Kind: "period", N: 1300, A: 7, Seed: 3})
+					}
+					c.Data.Segs = append(c.Data.Segs, gen.Seg{Kind: "text", N: 50, Seed: 1})
+					c.Ops = []gen.Op{{K: "W", N: c.Data.Len()}}
+					done := begin("C01", c)
+					labels, nt, err := checkC01(c)
+					done()
+					if err != nil {
+						saveLast("C01", c, err)
+						t.Fatalf("C01 violated (token-limit enumeration): %v", err)
+					}
+					stats.Record("C01", stats.Digest(c), nt, append(labels, "token-limit-enumeration"), func() any { return c })
+					tl++
+				}
+			}
+		}
+	}
+	stats.Exhaustive("C01", fmt.Sprintf("token-limit family: 32767+d incompressible bytes then a 1300-byte run or period-7 repeat, d in [-270,6] step %d x {new,4k} x {1,2}", step), tl)
 	stats.Exhaustive("C01", fmt.Sprintf("lengths T+d, d in [-%d,%d], T in %v x {new,4k} x {-2,1,2} x {one write, split at T-1} x {text, 4-symbol random}", dmax, dmax, gen.Thresholds), count)
 }
 
